@@ -280,6 +280,13 @@ func (m *model) resolveHint(h Hint) resolvedHint {
 				r.ipnet.Mask = nonContigMask()
 			}
 		}
+		if !r.v6Canon {
+			// an IPv6 address without a contiguous 128-bit mask is not a prefix: whether such a hint
+			// "names" the block its address lies in is not stated, so nothing is demanded of it
+			// beyond a well-formed allocation (IPv4 hints are addresses: the range plugin passes
+			// them without a mask)
+			r.names = false
+		}
 		return r
 	}
 	// IPv4 allocator
